@@ -23,7 +23,7 @@ def grid(scheme, tier_="quick"):
         c.update(kw)
         return c
     if scheme == "CJJ14.PiBas":
-        g = [v(), v(param_lambda=16, prf_f_output_length=16), v(param_lambda=24, prf_f_output_length=20), v(param_identifier_size=3)]
+        g = [v(), v(param_lambda=16, prf_f_output_length=16), v(param_lambda=24, prf_f_output_length=24), v(param_identifier_size=3)]
     elif scheme == "CJJ14.PiPack":
         g = [v(param_B=2), v(param_B=1), v(param_B=3, param_identifier_size=4), v()]
     elif scheme == "CJJ14.PiPtr":
@@ -198,3 +198,43 @@ def run_case(scheme, cfg, profile, seed_, present=True, absent=False, want_shape
             s["err"] = type(ex).__name__ + ": " + str(ex)[:100]
         rec["searches"].append(s)
     return rec
+
+
+# ----------------------------------------------------------------------------- TLC side
+def tla_literal(x):
+    if isinstance(x, bool):
+        return "TRUE" if x else "FALSE"
+    if isinstance(x, int):
+        return str(x)
+    if isinstance(x, str):
+        return '"%s"' % x
+    if isinstance(x, (list, tuple)):
+        return "<<" + ", ".join(tla_literal(y) for y in x) + ">>"
+    if isinstance(x, dict):
+        return "[" + ", ".join("%s |-> %s" % (k, tla_literal(v)) for k, v in sorted(x.items())) + "]"
+    raise TypeError(x)
+
+
+BOUNDS = {  # scheme -> (MaxKw, MaxN) quick, thorough
+    "CJJ14.PiBas": ((3, 8), (4, 12)), "CJJ14.PiPack": ((3, 9), (4, 14)), "CJJ14.PiPtr": ((3, 10), (4, 14)),
+    "CJJ14.Pi2Lev": ((3, 10), (4, 16)), "CGKO06.SSE1": ((3, 9), (4, 16)), "CGKO06.SSE2": ((3, 8), (4, 12)),
+    "CT14.Pi": ((4, 17), (5, 20)), "ANSS16.Scheme3": ((4, 17), (5, 20)), "DP17.Pi": ((4, 12), (5, 18)),
+}
+
+
+def model_profiles(scheme, cfg, tier_, extra_inv=True):
+    """Run MC_Profiles for (scheme, cfg). -> (list of dict(p, valid, outcome, pis), TLCResult)"""
+    from common import run_tlc, parse_printed, tla_value
+    probe_db = {b"k": [b"\x01" * sc.id_size_of(cfg)]}
+    c = numbers(scheme, fit(scheme, cfg, [1], probe_db))
+    maxkw, maxn = BOUNDS[scheme][1 if tier_ == "thorough" else 0]
+    wrapper = ("---- MODULE MCP ----\nEXTENDS MC_Profiles\nCfgDef == %s\n====\n" % tla_literal(c))
+    cfgtxt = ('CONSTANTS Scheme = "%s"\nCfg <- CfgDef\nMaxKw = %d\nMaxN = %d\nSPECIFICATION Spec\nINVARIANT Emit\n'
+              'INVARIANT NoRaiseOnValid\n%sCHECK_DEADLOCK FALSE\n'
+              % (scheme, maxkw, maxn, "INVARIANT ShapeFunctionOfPi\nINVARIANT UniformTables\n" if extra_inv else ""))
+    r = run_tlc("MCP", cfgtxt, workers=4, extra_modules={"MCP": wrapper}, name="prof", heap="2g")
+    out = []
+    for raw in parse_printed(r.out, "H"):
+        v = tla_value(raw)
+        out.append({"p": v[1], "valid": v[2], "outcome": v[3], "pis": v[4]})
+    return out, r, c
